@@ -199,11 +199,14 @@ def run(ctx):
     import os
     import queue
     impl_dir = os.path.join(common.snapshot_impl(), "luqum") + os.sep
-    for i in range(ctx.budget(6, 60)):
+    for i in range(ctx.budget(9, 60)):
         qa = gen.QueryGen(rng, long_nums=True, bad_nums=rng.random() < 0.3)
         qb = gen.QueryGen(rng, long_nums=rng.random() < 0.3)
-        a_q = rng.choice([qa.query(), qa.query(), "x^1.0000000000000000000000000000001 [a TO b] y~2",
-                          "f:[1 TO 2] AND (g:{a TO b} OR c^2.50)", "(a [1 TO"])
+        directed = ["x^1.0000000000000000000000000000001 [a TO b] y~2", "f:[1 TO 2] AND (g:{a TO b} OR c^2.50)",
+                    "(a [1 TO", "title:(foo bar)^2 (u v)^3 w~0.12345678901234567890123456789012345"]
+        # (the first rounds are the directed queries, every run: numbers beyond the working precision, ranges,
+        # boosted groups, an input refused half-way)
+        a_q = directed[i] if i < len(directed) else rng.choice([qa.query(), qa.query()] + directed)
         b_qs = [qb.query() for _ in range(3)] + ["k^2.50 [1 TO 3]", "{a TO b} x~0.50", "(u", "v]"]
         a_seq = parsing.impl_parse(a_q, "module")[0]
         b_seq = {q: parsing.impl_parse(q, "module")[0] for q in b_qs}
